@@ -176,4 +176,21 @@ func init() {
 		"[!(has(f.Globals[name])) && has(f.Builtins[name])] ",
 		"[has(f.Globals[name])] ",
 	}
+	// symbol-table update after scope analysis: scope bits are recorded; in a class block a name that is free in a method and bound OR declared global in the class gets DefFreeClass; a free name unknown to the block is added as free [symtable.c update_symbols] — the compiler's closure construction relies on it  []
+	pathSpec["symtable|Symbols.Update"] = []string{
+		"[] LOOP(range symbols){[]  }; LOOP(range free){[!(has(symbols[name])) && !(bound.Contains(name))]   | [!(has(symbols[name])) && bound.Contains(name)]   | [has(symbols[name]) && !(classflag)]   | [has(symbols[name]) && classflag && (symbol.Flags & (DefBound | DefGlobal)) != 0]   | [has(symbols[name]) && classflag && (symbol.Flags & (DefBound | DefGlobal)) == 0]  }",
+	}
+	// one layout pass: each instruction gets its position, jumps are resolved (possibly widening the instruction) and only then the address advances by the instruction's size  []
+	pathSpec["compile|Instructions.Pass"] = []string{
+		"[] LOOP(range is){[pass <= 0] is[*].SetPos(loop:i@is, loop:addr); is[*].Size()  | [pass > 0 && !(instr.(Resolver))] is[*].SetPos(loop:i@is, loop:addr); is[*].Size()  | [pass > 0 && instr.(Resolver)] is[*].SetPos(loop:i@is, loop:addr); is[*].Resolve(); is[*].Size() } -> after-loop",
+	}
+	// repr/ascii escaping per character class: control characters as \t \n \r \xHH; in repr mode printable ASCII with backslash and the chosen quote escaped; in ascii mode ASCII passes through untouched (the text is an already escaped repr); Latin-1, BMP and astral characters printable-or-escaped by width  []
+	pathSpec["py|StringEscape"] = []string{
+		"[!(strings.ContainsRune(s, '\\'')) && !(ascii)] ContainsRune(a, 39); zero.WriteRune(39); LOOP(range s){[c < 0x20 && c != '\\t' && c != '\\n' && c != '\\r'] Fprintf(zero, `\\x%02x`, a[*])  | [c < 0x20 && c == '\\n'] zero.WriteString(`\\n`)  | [c < 0x20 && c == '\\r'] zero.WriteString(`\\r`)  | [c < 0x20 && c == '\\t'] zero.WriteString(`\\t`)  | [c >= 0x20 && c < 0x7F && c != '\\\\' && c != '\\''] zero.WriteRune(a[*])  | [c >= 0x20 && c < 0x7F && c == '\\''] zero.WriteRune(92); zero.WriteRune(a[*])  | [c >= 0x20 && c < 0x7F && c == '\\\\'] zero.WriteRune(92); zero.WriteRune(a[*])  | [c >= 0x20 && c >= 0x7F && c < 0x100 && !(strconv.IsPrint(c))] IsPrint(a[*]); Fprintf(zero, \"\\\\x%02x\", a[*])  | [c >= 0x20 && c >= 0x7F && c < 0x100 && strconv.IsPrint(c)] IsPrint(a[*]); zero.WriteRune(a[*])  | [c >= 0x20 && c >= 0x7F && c >= 0x100 && c < 0x10000 && !(strconv.IsPrint(c))] IsPrint(a[*]); Fprintf(zero, \"\\\\u%04x\", a[*])  | [c >= 0x20 && c >= 0x7F && c >= 0x100 && c < 0x10000 && strconv.IsPrint(c)] IsPrint(a[*]); zero.WriteRune(a[*])  | [c >= 0x20 && c >= 0x7F && c >= 0x100 && c >= 0x10000 && !(strconv.IsPrint(c))] IsPrint(a[*]); Fprintf(zero, \"\\\\U%08x\", a[*])  | [c >= 0x20 && c >= 0x7F && c >= 0x100 && c >= 0x10000 && strconv.IsPrint(c)] IsPrint(a[*]); zero.WriteRune(a[*]) }; zero.WriteRune(39); zero.String() -> (*bytes.Buffer).String#0",
+		"[!(strings.ContainsRune(s, '\\'')) && ascii] ContainsRune(a, 39); LOOP(range s){[c < 0x20 && c != '\\t' && c != '\\n' && c != '\\r'] Fprintf(zero, `\\x%02x`, a[*])  | [c < 0x20 && c == '\\n'] zero.WriteString(`\\n`)  | [c < 0x20 && c == '\\r'] zero.WriteString(`\\r`)  | [c < 0x20 && c == '\\t'] zero.WriteString(`\\t`)  | [c >= 0x20 && c < 0x100 && c < 0x7F] zero.WriteRune(a[*])  | [c >= 0x20 && c < 0x100 && c >= 0x7F] Fprintf(zero, \"\\\\x%02x\", a[*])  | [c >= 0x20 && c >= 0x100 && c < 0x10000] Fprintf(zero, \"\\\\u%04x\", a[*])  | [c >= 0x20 && c >= 0x100 && c >= 0x10000] Fprintf(zero, \"\\\\U%08x\", a[*]) }; zero.String() -> (*bytes.Buffer).String#0",
+		"[strings.ContainsRune(s, '\\'') && !(strings.ContainsRune(s, '\"')) && !(ascii)] ContainsRune(a, 39); ContainsRune(a, 34); zero.WriteRune(34); LOOP(range s){[c < 0x20 && c != '\\t' && c != '\\n' && c != '\\r'] Fprintf(zero, `\\x%02x`, a[*])  | [c < 0x20 && c == '\\n'] zero.WriteString(`\\n`)  | [c < 0x20 && c == '\\r'] zero.WriteString(`\\r`)  | [c < 0x20 && c == '\\t'] zero.WriteString(`\\t`)  | [c >= 0x20 && c < 0x7F && c != '\\\\' && c != '\"'] zero.WriteRune(a[*])  | [c >= 0x20 && c < 0x7F && c == '\"'] zero.WriteRune(92); zero.WriteRune(a[*])  | [c >= 0x20 && c < 0x7F && c == '\\\\'] zero.WriteRune(92); zero.WriteRune(a[*])  | [c >= 0x20 && c >= 0x7F && c < 0x100 && !(strconv.IsPrint(c))] IsPrint(a[*]); Fprintf(zero, \"\\\\x%02x\", a[*])  | [c >= 0x20 && c >= 0x7F && c < 0x100 && strconv.IsPrint(c)] IsPrint(a[*]); zero.WriteRune(a[*])  | [c >= 0x20 && c >= 0x7F && c >= 0x100 && c < 0x10000 && !(strconv.IsPrint(c))] IsPrint(a[*]); Fprintf(zero, \"\\\\u%04x\", a[*])  | [c >= 0x20 && c >= 0x7F && c >= 0x100 && c < 0x10000 && strconv.IsPrint(c)] IsPrint(a[*]); zero.WriteRune(a[*])  | [c >= 0x20 && c >= 0x7F && c >= 0x100 && c >= 0x10000 && !(strconv.IsPrint(c))] IsPrint(a[*]); Fprintf(zero, \"\\\\U%08x\", a[*])  | [c >= 0x20 && c >= 0x7F && c >= 0x100 && c >= 0x10000 && strconv.IsPrint(c)] IsPrint(a[*]); zero.WriteRune(a[*]) }; zero.WriteRune(34); zero.String() -> (*bytes.Buffer).String#0",
+		"[strings.ContainsRune(s, '\\'') && !(strings.ContainsRune(s, '\"')) && ascii] ContainsRune(a, 39); ContainsRune(a, 34); LOOP(range s){[c < 0x20 && c != '\\t' && c != '\\n' && c != '\\r'] Fprintf(zero, `\\x%02x`, a[*])  | [c < 0x20 && c == '\\n'] zero.WriteString(`\\n`)  | [c < 0x20 && c == '\\r'] zero.WriteString(`\\r`)  | [c < 0x20 && c == '\\t'] zero.WriteString(`\\t`)  | [c >= 0x20 && c < 0x100 && c < 0x7F] zero.WriteRune(a[*])  | [c >= 0x20 && c < 0x100 && c >= 0x7F] Fprintf(zero, \"\\\\x%02x\", a[*])  | [c >= 0x20 && c >= 0x100 && c < 0x10000] Fprintf(zero, \"\\\\u%04x\", a[*])  | [c >= 0x20 && c >= 0x100 && c >= 0x10000] Fprintf(zero, \"\\\\U%08x\", a[*]) }; zero.String() -> (*bytes.Buffer).String#0",
+		"[strings.ContainsRune(s, '\\'') && strings.ContainsRune(s, '\"') && !(ascii)] ContainsRune(a, 39); ContainsRune(a, 34); zero.WriteRune(39); LOOP(range s){[c < 0x20 && c != '\\t' && c != '\\n' && c != '\\r'] Fprintf(zero, `\\x%02x`, a[*])  | [c < 0x20 && c == '\\n'] zero.WriteString(`\\n`)  | [c < 0x20 && c == '\\r'] zero.WriteString(`\\r`)  | [c < 0x20 && c == '\\t'] zero.WriteString(`\\t`)  | [c >= 0x20 && c < 0x7F && c != '\\\\' && c != '\\''] zero.WriteRune(a[*])  | [c >= 0x20 && c < 0x7F && c == '\\''] zero.WriteRune(92); zero.WriteRune(a[*])  | [c >= 0x20 && c < 0x7F && c == '\\\\'] zero.WriteRune(92); zero.WriteRune(a[*])  | [c >= 0x20 && c >= 0x7F && c < 0x100 && !(strconv.IsPrint(c))] IsPrint(a[*]); Fprintf(zero, \"\\\\x%02x\", a[*])  | [c >= 0x20 && c >= 0x7F && c < 0x100 && strconv.IsPrint(c)] IsPrint(a[*]); zero.WriteRune(a[*])  | [c >= 0x20 && c >= 0x7F && c >= 0x100 && c < 0x10000 && !(strconv.IsPrint(c))] IsPrint(a[*]); Fprintf(zero, \"\\\\u%04x\", a[*])  | [c >= 0x20 && c >= 0x7F && c >= 0x100 && c < 0x10000 && strconv.IsPrint(c)] IsPrint(a[*]); zero.WriteRune(a[*])  | [c >= 0x20 && c >= 0x7F && c >= 0x100 && c >= 0x10000 && !(strconv.IsPrint(c))] IsPrint(a[*]); Fprintf(zero, \"\\\\U%08x\", a[*])  | [c >= 0x20 && c >= 0x7F && c >= 0x100 && c >= 0x10000 && strconv.IsPrint(c)] IsPrint(a[*]); zero.WriteRune(a[*]) }; zero.WriteRune(39); zero.String() -> (*bytes.Buffer).String#0",
+		"[strings.ContainsRune(s, '\\'') && strings.ContainsRune(s, '\"') && ascii] ContainsRune(a, 39); ContainsRune(a, 34); LOOP(range s){[c < 0x20 && c != '\\t' && c != '\\n' && c != '\\r'] Fprintf(zero, `\\x%02x`, a[*])  | [c < 0x20 && c == '\\n'] zero.WriteString(`\\n`)  | [c < 0x20 && c == '\\r'] zero.WriteString(`\\r`)  | [c < 0x20 && c == '\\t'] zero.WriteString(`\\t`)  | [c >= 0x20 && c < 0x100 && c < 0x7F] zero.WriteRune(a[*])  | [c >= 0x20 && c < 0x100 && c >= 0x7F] Fprintf(zero, \"\\\\x%02x\", a[*])  | [c >= 0x20 && c >= 0x100 && c < 0x10000] Fprintf(zero, \"\\\\u%04x\", a[*])  | [c >= 0x20 && c >= 0x100 && c >= 0x10000] Fprintf(zero, \"\\\\U%08x\", a[*]) }; zero.String() -> (*bytes.Buffer).String#0",
+	}
 }
